@@ -272,7 +272,7 @@ func pathExpr(v ssa.Value) string {
 	case *ssa.UnOp:
 		if x.Op == token.MUL {
 			if al, ok := x.X.(*ssa.Alloc); ok {
-				// spilled parameter: local copy stored exactly once from a parameter
+				// spilled value: a local stored exactly once (parameter copy, or a variable captured by closures)
 				var src ssa.Value
 				n := 0
 				for _, ref := range *al.Referrers() {
@@ -281,8 +281,13 @@ func pathExpr(v ssa.Value) string {
 						src = st.Val
 					}
 				}
-				if prm, ok := src.(*ssa.Parameter); ok && n == 1 {
-					return prm.Name()
+				if n == 1 && src != nil {
+					if prm, ok := src.(*ssa.Parameter); ok {
+						return prm.Name()
+					}
+					if _, isCall := src.(*ssa.Call); isCall {
+						return pathExpr(src)
+					}
 				}
 			}
 			s := pathExpr(x.X)
@@ -298,6 +303,8 @@ func pathExpr(v ssa.Value) string {
 	case *ssa.IndexAddr:
 		return "&" + strings.TrimPrefix(pathExpr(x.X), "&") + "[" + pathExpr(x.Index) + "]"
 	case *ssa.Index:
+		return pathExpr(x.X) + "[" + pathExpr(x.Index) + "]"
+	case *ssa.Lookup:
 		return pathExpr(x.X) + "[" + pathExpr(x.Index) + "]"
 	case *ssa.Slice:
 		lo, hi := "", ""
